@@ -270,6 +270,20 @@ def cases(spec, ctx):
                                rng.choice([t["exons"][-1][1], rng.randint(t["exons"][-1][1], glen)])]
         yield {"kind": "rand", "exons": t["exons"], "strand": t["strand"], "cds": cds, "frames": frames, "glen": glen, "parent": pspec,
                "ivl": "sample", "nint": sc["NI"], "seed": rng.randrange(1 << 30), "variant": variant}
+    # scale (own stream): transcripts of 17..60 exons (strategies that switch by block count), CDS anywhere, every position
+    srng = random.Random(f"C06-scale:{ctx.seed}:{i}")
+    for k in range(sc["NR"] // (30 * n) + 1):
+        glen = srng.choice([400, 700])
+        t = None
+        while t is None or len(t["exons"]) < 17:
+            t = GG.rand_transcript_spec(srng, srng.randint(0, 10), glen - srng.randint(0, 10), coding=(srng.random() < 0.85), max_exons=srng.choice([24, 40, 60]),
+                                        qualifiers=False, frameshifts=0)
+        mode = srng.choice(MODES)
+        pspec = {"mode": mode}
+        if mode == "chunk":
+            pspec["window"] = [srng.randint(0, t["exons"][0][0]), srng.randint(t["exons"][-1][1], glen)]
+        yield {"kind": "rand", "exons": t["exons"], "strand": t["strand"], "cds": t["cds"], "frames": t["frames"], "glen": glen, "parent": pspec,
+               "ivl": "sample", "nint": 6, "seed": srng.randrange(1 << 30), "variant": "scale-many-exons"}
     # transcripts / features whose exon blocks overlap or nest (the location classes keep such blocks; a doubly covered base has two
     # positions on the transcript).  Own random stream, so the cases above do not depend on this leg.
     orng = random.Random(f"C06-ovl:{ctx.seed}:{i}")
